@@ -1,6 +1,8 @@
 package main
 
 import (
+	"go/types"
+	"sort"
 	"fmt"
 
 	"golang.org/x/tools/go/ssa"
@@ -13,8 +15,10 @@ func init() {
 }
 
 func runC05(c *Ctx) {
+	runC05PerJobReset(c)
 	borrow(c, "O8", "C06", "O10", "cache", "a victim wrongly reported as protected is never displaced")
 	borrow(c, "O11", "C14", "O1", "addTaskIndex <-> deleteTaskIndex", "the victim filters drop a workload whose cached active-allocated count is 0: a count that drifts after an undone simulation hides a legal victim from the later actions of the cycle")
+	borrow(c, "O12", "C08", "O6", "given to the queue is in bytes", "a limit enforced a million times too low refuses every workload of the queue although capacity is free")
 	borrow(c, "O9", "C01", "O7", "BindPod failure -> unallocate", "resources of a pod whose bind failed stay consumed in the session and a later job that fits is left pending")
 	p, fx := c.P, c.Fx
 	// ---- O10: the pod-slot predicate counts the slots of terminating pods as available (nominations go there)
@@ -422,4 +426,74 @@ func helperReturnsEntryUnderParam(fn *ssa.Function, key *ssa.Parameter, depth in
 		}
 	}
 	return n > 0
+}
+
+// C05-O13 (MUSTDEF): per-job scratch tables of the topology plugin do not outlive the job. The plugin fills map
+// fields while it evaluates one job (node scores per sub-group) and reads them while that job's tasks are ordered;
+// the pre-job hook must wipe every such table COMPLETELY — replace it with a fresh map, or clear() it — on every
+// path. Deleting selected keys leaves the entries of the previous job's other sub-groups (the root sub-group set is
+// called "" in every job): a later job then sorts its nodes by another job's scores, and in a simulation the only
+// nodes where it fits can drop out of its candidate order.
+func runC05PerJobReset(c *Ctx) {
+	p := c.P
+	const pkgTopo = "pkg/scheduler/plugins/topology"
+	hook := c.Anchor("O13", pkgTopo, "topologyPlugin", "preJobAllocationFn")
+	tn := p.TypeObj(pkgTopo, "topologyPlugin")
+	if hook == nil || tn == nil {
+		return
+	}
+	// map fields of the plugin that are filled outside construction / session open
+	filled := map[string]bool{}
+	// what OnSessionOpen builds by direct calls is session state, not per-job scratch
+	sessionInit := map[*ssa.Function]bool{}
+	var mark func(f *ssa.Function, d int)
+	mark = func(f *ssa.Function, d int) {
+		if f == nil || f.Blocks == nil || sessionInit[f] || d > 4 {
+			return
+		}
+		sessionInit[f] = true
+		for _, in := range instrsIn(f, func(in ssa.Instruction) bool { _, ok := in.(ssa.CallInstruction); return ok }) {
+			mark(calleeOf(in.(ssa.CallInstruction)), d+1)
+		}
+	}
+	mark(p.Func(pkgTopo, "topologyPlugin", "OnSessionOpen"), 0)
+	for _, fn := range p.FuncsIn(pkgTopo) {
+		if isTestdataOrMock(fn) || fn.Name() == "New" || sessionInit[fn] {
+			continue
+		}
+		for _, in := range instrsIn(fn, func(in ssa.Instruction) bool { _, ok := in.(*ssa.MapUpdate); return ok }) {
+			t := termOf(in.(*ssa.MapUpdate).Map)
+			if t.Op == "field" && rootParam(t) == 0 && len(t.Args) == 1 && t.Args[0].Op == "param" {
+				if pt, ok := t.Args[0].V.Type().Underlying().(*types.Pointer); ok && types.Identical(pt.Elem(), tn.Type()) {
+					filled[t.Name] = true
+				}
+			}
+		}
+	}
+	var names []string
+	for f := range filled {
+		names = append(names, f)
+	}
+	sort.Strings(names)
+	for _, f := range names {
+		isWipe := func(in ssa.Instruction) bool {
+			switch x := in.(type) {
+			case *ssa.Store:
+				if termOf(x.Addr).lastField() != f {
+					return false
+				}
+				_, fresh := x.Val.(*ssa.MakeMap)
+				return fresh
+			case *ssa.Call:
+				if b, ok := x.Call.Value.(*ssa.Builtin); ok && b.Name() == "clear" && len(x.Call.Args) == 1 {
+					return termOf(x.Call.Args[0]).lastField() == f
+				}
+			}
+			return false
+		}
+		_, path, found := reachAvoiding([]cfgPos{entryPos(hook)}, isReturn, isWipe, nil)
+		c.Check(!found, "O13", "MUSTDEF", funcKey(hook)+": the per-job table "+f+" is wiped completely before every job", hook.Pos(), "replaced by a fresh map (or clear()) on every path",
+			"the pre-job hook can return without wiping "+f+" completely ("+pathStr(path)+"): entries written for an earlier job (e.g. the scores of its root sub-group set, named \"\" in every job) are read by later jobs of the cycle, which then order — and in simulations lose — their candidate nodes by another job's preferences")
+	}
+	c.Floor("O13", "MUSTDEF per-job tables of the topology plugin", len(names), 1)
 }
